@@ -158,6 +158,23 @@ def check_C16(chk):
     chk.add_model('MC_DrbgCtl', tlc_model(chk.wd, 'MC_DrbgCtl', cfg='MC_DrbgCtl_thorough' if chk.thorough else 'MC_DrbgCtl', workers=8))
     chk.add_model('MC_DrbgCtl(1 MiB limits)', tlc_model(chk.wd, 'MC_DrbgCtl', cfg='MC_DrbgCtl_big', workers=8))
     chk.add_model('MC_DrbgCtl(liveness)', tlc_model(chk.wd, 'MC_DrbgCtl', cfg='MC_DrbgCtl_live', workers=4))
+    # unbounded sizes / limits / histories: the inductive invariant of the typed control skeleton, by Apalache
+    ad = os.path.join(spec_copy(chk.wd), 'apalache')
+    done = 0
+    for init, length in (('Init', 0), ('IndInit', 1)):
+        try:
+            rc, out = sh(f"timeout 300 apalache-mc check --init={init} --inv=IndInv --length={length} "
+                         f"--out-dir={chk.wd}/apa-{init} DrbgCtlInd.tla", cwd=ad, timeout=330)
+        except Exception as e:
+            rc, out = -1, str(e)
+        if 'EXITCODE: OK' in out:
+            done += 1
+        elif 'violat' in out:
+            raise MachineryError("Apalache: the inductive invariant of DrbgCtlInd does not hold:\n" + out[-1200:])
+        else:
+            chk.log(f"Apalache obligation {init}/{length} not discharged (tool unavailable or timeout); not part of the verdict")
+    chk.cov['apalache_inductive_obligations_discharged'] = done
+    chk.log(f"Apalache discharged {done}/2 obligations of DrbgCtlInd!IndInv (unbounded sizes, limits, histories)")
     r = Rng(chk.seed ^ 0xC16)
     G = lambda n: dict(op='pgen', arg=n)
     I = lambda n=0: dict(op='pinit', arg=n)
